@@ -362,6 +362,8 @@ def run(ctx: common.Run):
         (cirq.Circuit(cirq.Moment(cirq.H(cq0), cirq.Y(cq1)), cirq.Moment(cirq.measure(cq0, key='a')), cirq.Moment(cirq.X(cq1).with_classical_controls('a')), cirq.Moment(cirq.measure(cq1, key='b'))), ['merge_operations_to_circuit_op', 'merge_operations(sub-circuit)']),
         (cirq.Circuit(cirq.CircuitOperation(cirq.FrozenCircuit(cirq.H(cq0), cirq.measure(cq0, key='a'), cirq.X(cq1).with_classical_controls('a'), cirq.measure(cq1, key='b')))),
          ['unroll_circuit_op', 'unroll_circuit_op_greedy_earliest', 'unroll_circuit_op_greedy_frontier']),
+        (cirq.Circuit(cirq.Moment(cirq.CircuitOperation(cirq.FrozenCircuit(cirq.Moment(cirq.CZ(cq0, cirq.LineQubit(2)), cirq.X(cq1)), cirq.Moment(cirq.Y(cq0)), cirq.Moment(cirq.S(cirq.LineQubit(2)))), repetitions=2)), cirq.Moment(cirq.H(cq1))),
+         ['unroll_circuit_op', 'unroll_circuit_op_greedy_earliest', 'unroll_circuit_op_greedy_frontier'], 'sub'),
         (cirq.Circuit(cirq.X(cq0) ** 0.3, cirq.Moment(cirq.H(cq1)), cirq.Moment(cirq.Y(cq0).with_tags(IGN)), cirq.Moment(cirq.H(cq1)), cirq.X(cq0) ** 0.2, cirq.CZ(cq0, cq1)), ['add_dynamical_decoupling'], 'ignored'),
     ]
     for i in range(n + len(corpus)):
